@@ -46,7 +46,7 @@ func (c18) Meta() fw.Meta {
 
 func (c18) Cases(tier string) int {
 	if tier == "thorough" {
-		return 36000
+		return 16000
 	}
 	return 240
 }
@@ -61,8 +61,8 @@ func (c18) Run(c *fw.Ctx) {
 	dir := c.TmpDir()
 	l := cliLayout(r)
 	// through the single-threaded server with delayed socket writes, other clients active (thorough: the first 500 such
-	// cases, then every 10th of them - each costs seconds)
-	remote := c.Index%8 == 5 && (c.Index < 4000 || c.Index%80 == 5)
+	// cases, then every 5th of them - each costs seconds)
+	remote := c.Index%8 == 5 && (c.Index < 4000 || c.Index%40 == 5)
 	if remote {
 		l = model.Layout{Archs: []model.Arch{{Step: 1, Points: uint32(1500 + r.Intn(2500))}, {Step: 60, Points: uint32(100 + r.Intn(300))}}, Method: 1 + r.Intn(6)}
 	}
